@@ -114,7 +114,7 @@ package nsqd
 
 //@ lock Topic.RWMutex guards channelMap, mapsof(map[string]*Channel)
 //@   invariant[map] self.channelMap != nil
-//@   invariant[values] forall k string :: {self.channelMap[k]} has(self.channelMap, k) ==> self.channelMap[k] != nil
+//@   invariant[values] forall k string :: {self.channelMap[k]} has(self.channelMap, k) ==> lChanUsable(self.channelMap[k])
 
 // Constructors (assumed, bodies not verified: they build disk queues, start goroutines and notify
 // the lookup loop): a fresh object with the given identity; no existing modelled state changes.
@@ -137,13 +137,13 @@ package nsqd
 //@ func (t *Topic) getOrCreateChannel(channelName string) (*Channel, bool)
 //@   props C16
 //@   requires t != nil && t.nsqd != nil && t.channelMap != nil
-//@   requires[values] forall k string :: {t.channelMap[k]} has(t.channelMap, k) ==> t.channelMap[k] != nil
+//@   requires[values] forall k string :: {t.channelMap[k]} has(t.channelMap, k) ==> lChanUsable(t.channelMap[k])
 //@   ensures[present] result0 != nil && has(t.channelMap, channelName) && t.channelMap[channelName] == result0
 //@   ensures[is-new] result1 == !old(has(t.channelMap, channelName))
 //@   ensures[existing-kept] old(has(t.channelMap, channelName)) ==> result0 == old(t.channelMap[channelName])
 //@   ensures[named] !old(has(t.channelMap, channelName)) ==> result0.name == channelName && result0.topicName == t.name
 //@   ensures[others] forall k string :: {t.channelMap[k]} k != channelName ==> (has(t.channelMap, k) <==> old(has(t.channelMap, k))) && t.channelMap[k] == old(t.channelMap[k])
-//@   ensures[values] forall k string :: {t.channelMap[k]} has(t.channelMap, k) ==> t.channelMap[k] != nil
+//@   ensures[values] forall k string :: {t.channelMap[k]} has(t.channelMap, k) ==> lChanUsable(t.channelMap[k])
 //@   modifies mapstore(map[string]*Channel), dqCalls, kNotifies, kInitPQs, mapstore(map[MessageID]*Message), mapstore(map[MessageID]*pqueue.Item), Message.index, elems(*Message), elems(*pqueue.Item)
 
 // GetChannel: afterwards the channel exists in the topic (at release of the topic lock).
@@ -151,6 +151,7 @@ package nsqd
 //@   props C16
 //@   requires t != nil && t.nsqd != nil
 //@   ensures[exists] result != nil && atunlock(has(t.channelMap, channelName)) && atunlock(t.channelMap[channelName]) == result
+//@   ensures[usable] lChanUsable(result)
 //@   modifies t.channelMap, mapstore(map[string]*Channel), dqCalls, kNotifies, kInitPQs, mapstore(map[MessageID]*Message), mapstore(map[MessageID]*pqueue.Item), Message.index, elems(*Message), elems(*pqueue.Item)
 //@   onreturn channelName == watchName && t == watchTopic ==> watchCreated := true
 //   the most recent GetChannel call: topic, name, result, and the number of Channel.doPause calls completed when it
@@ -159,6 +160,14 @@ package nsqd
 //@   onreturn gGotChanName := channelName
 //@   onreturn gGotChan := result
 //@   onreturn gGotChanSawPauses := gChanPauseCalls
+//   which channel was asked for and whether the most recent auth check had passed, for SUB's contract
+//   (ghosts declared in zz_contracts_lcmds_verif.go)
+//@   onreturn lGetChanCalls := lGetChanCalls + 1
+//@   onreturn lGotChan := result
+//@   onreturn lGotChanName := channelName
+//@   onreturn lGotChanTopic := t
+//@   onreturn lGotChanAuthSeq := authCalls
+//@   onreturn lGotChanAuthOK := authOK
 
 // GetTopic.
 //  [existing-returned]    a known topic is returned as is and not started again;
@@ -180,10 +189,13 @@ package nsqd
 //@   ensures[lookup-when-peers] !atlock(has(n.topicMap, topicName)) && n.isLoading != 1 && len(luAddrs) > 0 ==> luCount == old(luCount) + 1 && luTopic == topicName
 //@   ensures[channels-before-start] startCount != old(startCount) && luCount != old(luCount) && result == watchTopic ==>
 //@        (forall k int :: {luNames[k]} 0 <= k && k < len(luNames) && luNames[k] == watchName && !isEph(watchName) ==> startSawWatch)
+//   (GetChannel calls are only ever added; SUB's loop invariants count them)
+//@   ensures[getchan-monotone] lGetChanCalls >= old(lGetChanCalls)
 //@   modifies n.topicMap, mapstore(map[string]*Topic), Topic.channelMap, mapstore(map[string]*Channel),
 //@        luNames, luErr, luTopic, luCount, luAddrs, watchCreated, startCount, startedTopic, startSawWatch,
 //@        getTopicCalls, gotTopic, gotTopicName, gotTopicAuthSeq, gotTopicAuthOK, dqCalls, kNotifies, kInitPQs,
-//@        mapstore(map[MessageID]*Message), mapstore(map[MessageID]*pqueue.Item), Message.index, elems(*Message), elems(*pqueue.Item)
+//@        mapstore(map[MessageID]*Message), mapstore(map[MessageID]*pqueue.Item), Message.index, elems(*Message), elems(*pqueue.Item),
+//@        lGetChanCalls, lGotChan, lGotChanName, lGotChanTopic, lGotChanAuthSeq, lGotChanAuthOK
 //   the name asked for and whether the most recent auth check had passed, for the publish handlers'
 //   contracts (ghosts declared in zz_contracts_publish_verif.go)
 //@   onreturn getTopicCalls := getTopicCalls + 1
@@ -199,6 +211,7 @@ package nsqd
 //@     invariant[lucount] luCount == old(luCount) + 1
 //@     invariant[lutopic] luTopic == topicName
 //@     invariant[notstarted] startCount == old(startCount)
+//@     invariant[getchan-monotone] lGetChanCalls >= old(lGetChanCalls)
 //@     invariant[topic] t != nil && t.nsqd != nil && t.name == topicName
 //@     invariant[created-so-far] forall k int :: {channelNames[k]} 0 <= k && k <= rangeindex && k < len(channelNames) && channelNames[k] == watchName && !isEph(watchName) && t == watchTopic ==> watchCreated
 
